@@ -17,6 +17,7 @@ pub mod patterns;
 pub mod query;
 pub mod completions;
 pub mod cli;
+pub mod equality;
 pub mod schedules;
 pub mod scoping;
 pub mod sepcomp;
@@ -42,6 +43,7 @@ pub fn all() -> Vec<Box<dyn Family>> {
         Box::new(query::HoverAll),
         Box::new(completions::Completions),
         Box::new(cli::Cli),
+        Box::new(equality::Equality),
         Box::new(scoping::Scoping),
         Box::new(patterns::Patterns),
         Box::new(evalorder::EvalOrder),
